@@ -10,6 +10,7 @@ import (
 	"sync/atomic"
 	"testing/synctest"
 	"time"
+	"verif/dsync"
 
 	"encoding/binary"
 	"github.com/vx-labs/mqtt-protocol/encoder"
@@ -74,7 +75,7 @@ type Client struct {
 	readErr   error
 	dropped   bool // the harness closed the client end
 	SessionID string
-	writeMu   sync.Mutex
+	writeMu   dsync.Mutex // channel-based: a goroutine waiting for it is durably blocked (the holder may be kept waiting by the broker for virtual seconds)
 	paused    atomic.Bool
 	resume    chan struct{}
 	srv       *faultyConn
@@ -84,6 +85,7 @@ type Client struct {
 // errors, e.g. a write deadline on a congested link) while reads keep working.
 type faultyConn struct {
 	net.Conn
+	w          *World
 	failWrites atomic.Bool
 	slowNext   atomic.Int64 // the next write delivers its bytes, then returns this much (virtual ns) later
 }
@@ -95,6 +97,9 @@ func (f *faultyConn) Write(b []byte) (int, error) {
 	n, err := f.Conn.Write(b)
 	if d := f.slowNext.Swap(0); d > 0 {
 		time.Sleep(time.Duration(d))
+	}
+	if f.w != nil {
+		f.w.deviationPoint("client-write")
 	}
 	return n, err
 }
@@ -120,7 +125,7 @@ func (c *Client) Resume() {
 // NewClient opens a connection to node (no CONNECT sent yet).
 func (w *World) NewClient(name string, node int, policy AckPolicy) *Client {
 	cEnd, rawEnd := net.Pipe()
-	sEnd := &faultyConn{Conn: rawEnd}
+	sEnd := &faultyConn{Conn: rawEnd, w: w}
 	c := &Client{srv: sEnd, Name: name, w: w, Node: w.Node(node), conn: cEnd, enc: encoder.New(), Policy: policy, resume: make(chan struct{}, 1)}
 	w.Clients = append(w.Clients, c)
 	c.Node.accept(sEnd)
